@@ -105,7 +105,9 @@ def check(ctx):
                             okr = True
         ctx.ob("xml.root-tag-checked", loads, n.ast, okr, "decoding starts only when root.tag == self.root_tag; otherwise raise" if okr else
                "a document with the wrong root tag is decoded anyway", node=n)
-        forced = len(n.ast.args) >= 2 and isinstance(n.ast.args[1], ast.Constant) and n.ast.args[1].value == wtag.get("dict")
+        from .xmlfmt import cval
+        forced_e = n.ast.args[1] if len(n.ast.args) >= 2 else next((k.value for k in n.ast.keywords if k.arg in ("py_type", "type_name")), None)
+        forced = forced_e is not None and cval(loads, forced_e) == wtag.get("dict")
         ctx.ob("xml.root-is-map", loads, n.ast, forced, "the root element is decoded as a map" if forced else "the root element is not decoded as a map", node=n)
     gd = an.cfg(dumps)
     okw = any(n.kind == "call" and te in an.callees(dumps, n) and n.ast.args and isinstance(n.ast.args[0], ast.Attribute) and n.ast.args[0].attr == "root_tag"
